@@ -4,7 +4,6 @@ import "sort"
 
 
 func genJson(c *Ctx) string    { return genHeader }
-func genServer(c *Ctx) string  { return genHeader }
 func genEffects(c *Ctx) string { return genHeader }
 
 func sortStrings(s []string) { sort.Strings(s) }
